@@ -4,6 +4,8 @@ import (
 	"fmt"
 	"go/ast"
 	"go/types"
+
+	"golang.org/x/tools/go/cfg"
 	"sort"
 	"strings"
 )
@@ -249,4 +251,43 @@ func CondTest(substrs ...string) Matcher {
 		}
 		return true
 	}}
+}
+
+// LoopHeads returns the loop-header blocks (as locations) of `for … range X` statements whose X
+// prints as text: every new iteration passes through one of them.
+func (f *Fn) LoopHeads(text string) []Loc {
+	var out []Loc
+	for _, b := range f.live {
+		if b.Kind != cfg.KindRangeLoop {
+			continue
+		}
+		if rs, ok := b.Stmt.(*ast.RangeStmt); ok && types.ExprString(rs.X) == text {
+			out = append(out, Loc{Blk: b, Idx: -1, Seq: -1, Node: rs})
+		}
+	}
+	return out
+}
+
+// NoPathAvoid: no CFG path on which b runs after a without passing one of the avoid locations in
+// between (used to confine a no-path rule to one loop iteration: avoid = the loop head).
+func (f *Fn) NoPathAvoid(rule string, a, b Matcher, avoidDesc string, av []Loc) bool {
+	what := "no path " + a.Desc + " ⇝ " + b.Desc + " within one " + avoidDesc
+	as := f.need(rule, a, what)
+	bs := f.need(rule, b, what)
+	if len(as) == 0 || len(bs) == 0 {
+		return false
+	}
+	if len(av) == 0 {
+		f.C.Fail(rule, f.Where(), what, f.P.Pos(f.Body.Pos()), "no "+avoidDesc+" found (rule instance vanished)")
+		return false
+	}
+	for _, al := range as {
+		al := al
+		if p, t := f.search(&al, bs, av); p != nil {
+			f.C.Fail(rule, f.Where(), what, f.At(*t), fmt.Sprintf("%s at %s can be followed by %s at %s: %s", a.Desc, f.At(al), b.Desc, f.At(*t), f.pathString(p)))
+			return false
+		}
+	}
+	f.C.Pass(rule, f.Where(), what, fmt.Sprintf("%d×%d pairs", len(as), len(bs)))
+	return true
 }
